@@ -132,6 +132,30 @@ def eddyK (k : HConsts α) (bp : HBlockProp α) (wound : Bool) (a : α) : Cx α 
   if (bp.lamType == 0 && (0 : α) < bp.lamD) || wound then 0
   else (((((-Cx.I : Cx α).mulR a).mulR k.w).mulR bp.cduct).mulR k.c).divR 12
 
+/-- the element matrix after the eddy-current loop: `Me[j][k] += K; Me[k][j] += K` for `k ≥ j`, from zero -/
+def eddyMe (Ke : Cx α) : Array (Cx α) := Id.run do
+  let cz : Cx α := 0
+  let mut me : Array (Cx α) := Array.replicate 9 cz
+  let mg (m : Array (Cx α)) (a b : Nat) : Cx α := m.getD (a * 3 + b) cz
+  for j in [0, 1, 2] do
+    for kk in [0, 1, 2] do
+      if j ≤ kk then
+        me := me.setIfInBounds (j * 3 + kk) (mg me j kk + Ke)
+        me := me.setIfInBounds (kk * 3 + j) (mg me kk j + Ke)
+  return me
+
+/-- the three Allaire matrices of an element: `Mx[j][k] = K p_j p_k`, `My[j][k] = K q_j q_k`, `Mxy[j][k] = K (p_j q_k + p_k q_j)`, each
+    accumulated from zero over the upper triangle and mirrored -/
+def harmMx (K : Cx α) (p : V3 α) : M3 (Cx α) := fun j kk =>
+  (0 : Cx α) + (K.mulR (p (if j.val ≤ kk.val then j else kk))).mulR (p (if j.val ≤ kk.val then kk else j))
+def harmMxy (K : Cx α) (p q : V3 α) : M3 (Cx α) := fun j kk =>
+  (0 : Cx α) + K.mulR (p (if j.val ≤ kk.val then j else kk) * q (if j.val ≤ kk.val then kk else j) +
+    p (if j.val ≤ kk.val then kk else j) * q (if j.val ≤ kk.val then j else kk))
+
+/-- what the combination loop adds to `Me[j][k]`: `Mx/mu2 + My/mu1 + Mxy*v12` -/
+def harmStiff (K mu1 mu2 v12 : Cx α) (p q : V3 α) (j kk : Fin 3) : Cx α :=
+  harmMx K p j kk / mu2 + harmMx K q j kk / mu1 + harmMxy K p q j kk * v12
+
 def assembleHarm (k : HConsts α) (c001 c0001 c00001 c04 : α) (P : HProblem α) : CLinProb α × Nat := Id.run do
   let nn := P.nodes.size
   let zero : α := 0
@@ -177,23 +201,13 @@ def assembleHarm (k : HConsts α) (c001 c0001 c00001 c04 : α) (P : HProblem α)
       k.sqrt (k.sq (xs kk - xs j) + k.sq (ys kk - ys j))
     let a := area p q
     let K : Cx α := Cx.ofReal (-1 / (4 * a))
-    let lo (j kk : Fin 3) : Fin 3 := if j.val ≤ kk.val then j else kk
-    let hi (j kk : Fin 3) : Fin 3 := if j.val ≤ kk.val then kk else j
-    let mx : M3 (Cx α) := fun j kk => cz + (K.mulR (p (lo j kk))).mulR (p (hi j kk))
-    let my : M3 (Cx α) := fun j kk => cz + (K.mulR (q (lo j kk))).mulR (q (hi j kk))
-    let mxy : M3 (Cx α) := fun j kk => cz + K.mulR (p (lo j kk) * q (hi j kk) + p (hi j kk) * q (lo j kk))
     let lb := lab el.lbl
     let bp := blk el.blk
-    let mut me : Array (Cx α) := Array.replicate 9 cz
-    let mut be : Array (Cx α) := Array.replicate 3 cz
-    let mg (m : Array (Cx α)) (a b : Nat) : Cx α := m.getD (a * 3 + b) cz
     -- eddy currents
     let Ke := eddyK k bp lb.wound a
-    for j in [0, 1, 2] do
-      for kk in [0, 1, 2] do
-        if j ≤ kk then
-          me := me.setIfInBounds (j * 3 + kk) (mg me j kk + Ke)
-          me := me.setIfInBounds (kk * 3 + j) (mg me kk j + Ke)
+    let mut me : Array (Cx α) := eddyMe Ke
+    let mut be : Array (Cx α) := Array.replicate 3 cz
+    let mg (m : Array (Cx α)) (a b : Nat) : Cx α := m.getD (a * 3 + b) cz
     -- derivative boundary conditions
     for j in [(0 : Fin 3), 1, 2] do
       let e := geti el.e j
@@ -242,7 +256,7 @@ def assembleHarm (k : HConsts α) (c001 c0001 c00001 c04 : α) (P : HProblem α)
     let v12 : Cx α := 0
     for j in [(0 : Fin 3), 1, 2] do
       for kk in [(0 : Fin 3), 1, 2] do
-        me := me.setIfInBounds (j.val * 3 + kk.val) (mg me j.val kk.val + (mx j kk / mu2 + my j kk / mu1 + mxy j kk * v12))
+        me := me.setIfInBounds (j.val * 3 + kk.val) (mg me j.val kk.val + harmStiff K mu1 mu2 v12 p q j kk)
         be := be.setIfInBounds j.val (be.getD j.val cz + cz * cz)
     for j in [(0 : Fin 3), 1, 2] do
       for kk in [(0 : Fin 3), 1, 2] do
